@@ -27,6 +27,7 @@ type ODecl struct {
 	Name    string `json:"name"` // func name; first spec name of a TYPE decl
 	Doc     string `json:"doc"`  // go/ast CommentGroup.Text()
 	SpecDoc string `json:"specDoc"`
+	RawDoc  string `json:"rawDoc"` // source text of the doc comment group
 	NamedV  string `json:"namedV"`
 	NamedE  string `json:"namedE"`
 	Hdr     string `json:"hdr"`   // source from d.Pos() to the body's "{" (func with body), else the whole d.Pos()..d.End()
@@ -128,6 +129,9 @@ func observeFile(path string) OFile {
 		switch d := d.(type) {
 		case *ast.FuncDecl:
 			od := ODecl{Kind: "func", Name: d.Name.Name, Doc: d.Doc.Text(), SpecDoc: specDoc(d.Doc)}
+			if d.Doc != nil {
+				od.RawDoc = src[off(d.Doc.Pos()):off(d.Doc.End())]
+			}
 			if d.Recv != nil && len(d.Recv.List) > 0 {
 				rt := d.Recv.List[0].Type
 				if st, ok := rt.(*ast.StarExpr); ok {
